@@ -106,15 +106,18 @@ func runChain(desc *chainDesc) {
 		if len(c.Up.Opts) > 1 {
 			rep.Count("upstream_replies_scripted_with_two_opts", 1)
 		}
+		if c.Inject != nil {
+			rep.Count("cases_scripted_with_injected_opt", 1)
+		}
 		if reply != nil && (c.Opt != nil || len(c.Up.Opts) > 0) {
 			upc := "-"
 			if len(c.Up.Opts) > 0 {
 				upc = fmt.Sprintf("%d:%s", len(c.Up.Opts), optClass(&c.Up.Opts[len(c.Up.Opts)-1]))
 			}
-			rep.Nontrivial(fmt.Sprintf("%s|%s|%s|%s|tc=%v|udp=%v", desc.shape(), optClass(c.Opt), upc, info.path, info.truncated, c.FromUDP))
+			rep.Nontrivial(fmt.Sprintf("%s|%s|%s|%s|tc=%v|udp=%v|inj=%v", desc.shape(), optClass(c.Opt), upc, info.path, info.truncated, c.FromUDP, c.Inject != nil))
 			rep.SetAdd("client_opt_classes", optClass(c.Opt))
 		}
-		if sampleRun == nil && c.Opt != nil && len(c.Opt.Options) > 0 && len(c.Up.Opts) == 1 && len(run.up) > 0 && reply != nil {
+		if sampleRun == nil && c.Opt != nil && len(c.Opt.Options) > 0 && len(c.Up.Opts) == 1 && c.Up.NAns <= 3 && info.path != "no-upstream" && reply != nil {
 			sampleRun, sampleReply = run, reply
 		}
 	}
@@ -130,9 +133,10 @@ func runChain(desc *chainDesc) {
 func main() {
 	rep = evid.New("C15", "exploration")
 	caselog = evid.OpenCaseLog()
-	rep.SetRule("one case = one client query pushed through EntryHandler.Handle into a generated chain (random order/subset of forward_edns0opt{codes}, cache, lazy cache, has_resp->accept, ttl{fix|min-max}, ecs{preset}, ecs_handler{forward,send,preset,masks}, [qtype 16]->reject, terminal{guard|always}|real forward->loopback UDP, post-terminal ttl/forward_edns0opt), built through coremain's plugin registry + sequence.NewSequence rule text; client OPT generator: absent / sizes 0..65535 / DO / version 0-255 / Z bits / ext-rcode bits / option lists (ECS v4+v6, cookie, padding, NSID, EDE, keepalive, unknown codes, duplicates, empty); upstream reply generator: no OPT / OPT anywhere in the additional section with options, ext-rcode, version, Z / two OPTs (hostile class); names are reused inside a chain and the chain sleeps 1.1 s half-way so cache hits, aged hits, lazy hits and truncated replies occur. Non-trivial = a reply was produced and the client or the upstream had an OPT; distinct = chain shape x client OPT class x upstream OPT class x path(miss/hit/refetch/no-upstream) x truncated x transport")
+	rep.SetRule("one case = one client query pushed through EntryHandler.Handle into a generated chain (random order/subset of forward_edns0opt{codes}, cache, lazy cache, has_resp->accept, ttl{fix|min-max}, ecs{preset}, ecs_handler{forward,send,preset,masks}, [qtype 16]->reject, terminal{guard|always}|real forward->loopback UDP, post-terminal ttl/forward_edns0opt), built through coremain's plugin registry + sequence.NewSequence rule text; client OPT generator: absent / sizes 0..65535 / DO / version 0-255 / Z bits / ext-rcode bits / option lists (ECS v4+v6, cookie, padding, NSID, EDE, keepalive, unknown codes, duplicates, empty); upstream reply generator: no OPT / OPT anywhere in the additional section with options, ext-rcode, version, Z / two OPTs (out-of-quantifier class: only cache-store, TTL-field and upstream-side assertions are judged for it); in a quarter of the chains a harness plugin appends an OPT with a distinctive TTL field in place to R().Extra right after the terminal (same in-scope assertions); names are reused inside a chain and the chain sleeps 1.1 s half-way so cache hits, aged hits, lazy hits and truncated replies occur. Non-trivial = a reply was produced and the client or the upstream had an OPT; distinct = chain shape x client OPT class x upstream OPT class x path(miss/hit/refetch/no-upstream) x truncated x transport")
 	rep.Assume("oracle decodes all observed bytes with lib/wire and the dump with compress/gzip + protowire; miekg/dns is used only where mosdns' own servers/forward use it (Unpack of the client query / upstream reply)")
 	rep.Assume("'explicitly forwarded' is derived from the generated chain description: codes named by forward_edns0opt / ecs_handler forward before the terminal (upwards) or anywhere in the chain (downwards); ECS generated by ecs / ecs_handler preset|send is recomputed independently from preset, masks and client address")
+	rep.Assume("replies produced while a surplus OPT sat in R() (two-OPT upstream reply, or the harness $inject plugin) are not judged for OPT count / DO mirror / option sets: query_context documents that R() carries no OPT and pops exactly one; they are judged for: nothing stored in the cache contains an OPT, no OPT TTL field is rewritten by ttl / cache ageing / truncation")
 	rep.Assume("DO on the upstream OPT and the UDP size in the reply OPT are not judged (the statement does not fix them); an upstream extended rcode may appear in the reply OPT (it is the rcode, not an option)")
 
 	workers := 32
@@ -148,15 +152,19 @@ func main() {
 			os.Exit(3)
 		}
 		d := genChain(w.Chain.Seed, w.Chain.Idx, w.Chain.NCases, w.Chain.RealForward, w.Chain.MultiOpt)
+		if d.Inject != w.Chain.Inject || d.shape() != w.Chain.shape() {
+			fmt.Println("replay: regenerated chain differs from the recorded one (generator changed?)")
+			os.Exit(3)
+		}
 		runChain(d)
 		leak.WaitNone([]string{"cache.(*Cache).doLazyUpdate"}, nil, 10*time.Second)
 		rep.Finish()
 	}
 
-	nChains := rep.Pick(240, 2400)
-	nCases := rep.Pick(300, 500)
-	nFwd := rep.Pick(16, 120)
-	nFwdCases := rep.Pick(80, 160)
+	nChains := rep.Pick(240, 5000)
+	nCases := rep.Pick(300, 600)
+	nFwd := rep.Pick(16, 200)
+	nFwdCases := rep.Pick(80, 200)
 	for i := 0; i < nChains; i++ {
 		descs = append(descs, genChain(rep.Seed, i, nCases, false, i%4 == 3))
 	}
@@ -188,7 +196,8 @@ func main() {
 	need := []string{"up_queries_observed", "up_queries_via_real_forward_udp", "up_queries_from_lazy_update",
 		"up_options_forwarded_explicitly", "up_ecs_generated", "reply_options_forwarded_explicitly",
 		"truncated_replies_with_opt_intact", "cached_answers_inspected_at_terminal", "path:no-upstream",
-		"dump_entries_checked", "client_opt_absent", "client_opt_present", "upstream_replies_scripted_with_two_opts"}
+		"dump_entries_checked", "client_opt_absent", "client_opt_present", "upstream_replies_scripted_with_two_opts",
+		"out_of_quantifier_multi_opt_reply_not_judged", "harness_injected_opts", "injected_opt_reached_client_with_ttl_field_intact"}
 	for _, k := range need {
 		if rep.Get(k) == 0 {
 			rep.Inconclusive("monitor counter %s stayed 0: that part of the property was not exercised", k)
